@@ -446,7 +446,7 @@ def canon(n, env=None, depth=0, subst=True):
         if op in COMMUT:
             a, b = sorted((a, b), key=repr)
         if op == '>':
-            return ('<', b, a)
+            return _membership(('<', b, a))
         if op == '>=':
             return ('<=', b, a)
         return _membership((op, a, b))
@@ -569,8 +569,24 @@ def _pure(d):
     return True
 
 
+def _emptiness(t):
+    """`c.size() > 0` / `c.size() != 0` is `!c.empty()`, `c.size() == 0` is `c.empty()`: one canonical spelling of an emptiness test."""
+    if len(t) == 3 and t[0] in ('<', '==', '!='):
+        for a, b, side in ((t[1], t[2], 0), (t[2], t[1], 1)):
+            if a == ('num', 0) and isinstance(b, tuple) and len(b) == 3 and b[0] == 'mcall' and isinstance(b[1], str) and b[1].endswith('::size') and b[1].startswith('std::'):
+                e = ('mcall', b[1][:-len('size')] + 'empty', b[2])
+                if t[0] == '==':
+                    return e
+                if t[0] == '!=' or (t[0] == '<' and side == 0):
+                    return ('!', e)
+    return t
+
+
 def _membership(t):
     """`M.find(k) != M.end()` is `M.count(k)` (and `==` its negation): one canonical spelling of a membership test."""
+    t = _emptiness(t)
+    if not (isinstance(t, tuple) and len(t) == 3):
+        return t
     if len(t) == 3 and t[0] in ('==', '!='):
         def it(x):      # const_iterator(iterator) conversions are representation detail
             while isinstance(x, tuple) and len(x) == 3 and x[0] == 'new' and 'iterator' in str(x[1]):
